@@ -113,3 +113,17 @@ package roles
 //@   assert [C18:reads-the-configured-allow-list-role] $key.Name == v.name && $key.Namespace == ""
 //@   update roleRead = err == nil
 //@ ensures [C18:nothing-is-allowed-without-the-allow-list-role] err == nil ==> roleRead
+
+// The key of a rule in the allow tree: a non-resource URL is one key as a whole (Kubernetes
+// matches such URLs literally), followed by the verb; a resource rule is keyed by group,
+// resource, name and verb. The two kinds never share a prefix. A longer or shorter key would let
+// the tree confuse a verb with a URL segment.
+//
+//@ func (roles.Rule).path
+//@ props C18
+//@ sweep
+//@ frame fresh-only
+//@ ensures [C18:url-rule-is-keyed-by-the-whole-url-then-the-verb] r.NonResourceURL != "" ==>
+//@      len(result) == 3 && result[0] == "url" && result[1] == r.NonResourceURL && result[2] == r.Verb
+//@ ensures [C18:resource-rule-is-keyed-by-group-resource-name-verb] r.NonResourceURL == "" ==>
+//@      len(result) == 5 && result[0] == "resource" && result[1] == r.APIGroup && result[2] == r.Resource && result[3] == r.ResourceName && result[4] == r.Verb
